@@ -1,6 +1,6 @@
 #!/bin/sh
-# tools/confirm_seed2.sh Cxx mN mOUT : round 2 - confirm /tmp/seed2_Cxx/mN in /tmp/wt2_Cxx, file it as seeded/Cxx_mOUT
-ID=$1; M=$2; OUT=$3; WT=/tmp/wt2_$ID; SD=/tmp/seed2_$ID/$M
+# tools/confirm_seed2.sh Cxx mN mOUT : round R (env R, default 2) - confirm /tmp/seedR_Cxx/mN in /tmp/wtR_Cxx, file it as seeded/Cxx_mOUT
+ID=$1; M=$2; OUT=$3; R=${R:-2}; WT=/tmp/wt${R}_$ID; SD=/tmp/seed${R}_$ID/$M
 export PYTHONPATH=$WT/feems:$WT/machinery-system-structure:$WT/RunFEEMSSim PYTHONDONTWRITEBYTECODE=1 PYTHONHASHSEED=0
 git -C $WT checkout -q -- . || exit 2
 ( cd $SD && timeout 300 /venv/bin/python demo.py >/tmp/cs2_clean_$ID.out 2>&1 ); CLEAN=$?
